@@ -18,6 +18,27 @@ M = [
  ('skip-while-forget-done', 'src/ops/skip_while.rs', '      self.observer.next(value);\n      self.done_skipping = true;', '      self.observer.next(value);', 'C03', 'fire'),
  ('skip-while-pred-inverted', 'src/ops/skip_while.rs', '} else if !(self.predicate)(&value) {', '} else if (self.predicate)(&value) {', 'C03', 'fire'),
  ('skip-last-early', 'src/ops/skip_last.rs', 'if self.count_down == 0 {', 'if self.count_down <= 1 {', 'C03', 'fire'),
+ # --- C03.S10 provenance definitions
+ ('last-keeps-first', 'src/ops/last.rs', '    self.last = Some(value);', '    if self.last.is_none() {\n      self.last = Some(value);\n    }', 'C03', 'fire'),
+ ('last-replace-form', 'src/ops/last.rs', '    self.last = Some(value);', '    self.last.replace(value);', 'C03', 'silent'),
+ ('scan-emit-before-update', 'src/ops/scan.rs', '    self.acc = (self.binary_op)(self.acc.clone(), value);\n    self.target_observer.next(self.acc.clone())', '    self.target_observer.next(self.acc.clone());\n    self.acc = (self.binary_op)(self.acc.clone(), value);', 'C03', 'fire'),
+ ('scan-named-local', 'src/ops/scan.rs', '    self.acc = (self.binary_op)(self.acc.clone(), value);\n    self.target_observer.next(self.acc.clone())', '    let next_acc = (self.binary_op)(self.acc.clone(), value);\n    self.acc = next_acc.clone();\n    self.target_observer.next(next_acc)', 'C03', 'silent'),
+ ('default-if-empty-flag-kept', 'src/ops/default_if_empty.rs', '    if self.is_empty {\n      self.is_empty = false;\n    }', '', 'C03', 'fire'),
+ ('default-if-empty-unconditional-clear', 'src/ops/default_if_empty.rs', '    if self.is_empty {\n      self.is_empty = false;\n    }', '    self.is_empty = false;', 'C03', 'silent'),
+ ('default-if-empty-inverted', 'src/ops/default_if_empty.rs', '    if self.is_empty {\n      self.observer.next(self.default_value.clone());', '    if !self.is_empty {\n      self.observer.next(self.default_value.clone());', 'C03', 'fire'),
+ ('pairwise-swapped', 'src/ops/pairwise.rs', 'self.observer.next((a.clone(), b.clone()));', 'self.observer.next((b.clone(), a.clone()));', 'C03', 'fire'),
+ ('tap-after-forward', 'src/ops/tap.rs', '    (self.func)(&value);\n    self.observer.next(value)', '    self.observer.next(value);', 'C03', 'fire'),
+ ('distinct-no-insert', 'src/ops/distinct.rs', '      self.seen.insert(value.clone());\n      self.observer.next(value);', '      self.observer.next(value);', 'C03', 'fire'),
+ ('distinct-insert-form', 'src/ops/distinct.rs', '    if !self.seen.contains(&value) {\n      self.seen.insert(value.clone());\n      self.observer.next(value);\n    }', '    if self.seen.insert(value.clone()) {\n      self.observer.next(value);\n    }', 'C03', 'silent'),
+ ('distinct-inverted', 'src/ops/distinct.rs', '    if !self.seen.contains(&value) {\n      self.seen.insert(value.clone());', '    if self.seen.contains(&value) {\n      self.seen.insert(value.clone());', 'C03', 'fire'),
+ ('distinct-key-inserts-other', 'src/ops/distinct.rs', '    let key = (self.key)(&value);\n    if !self.seen.contains(&key) {\n      self.seen.insert(key);', '    let key = (self.key)(&value);\n    if !self.seen.contains(&key) {\n      self.seen.insert((self.key)(&value));', 'C03', 'silent'),
+ ('contains-ne', 'src/ops/contains.rs', '    if self.target == value {', '    if self.target != value {', 'C03', 'fire'),
+ ('contains-complete-true', 'src/ops/contains.rs', '      observer.next(false);', '      observer.next(true);', 'C03', 'fire'),
+ ('buffer-count-gt', 'src/ops/buffer.rs', '    if self.buffer.data.len() >= self.count {', '    if self.buffer.data.len() > self.count {', 'C03', 'fire'),
+ ('buffer-count-eq', 'src/ops/buffer.rs', '    if self.buffer.data.len() >= self.count {', '    if self.buffer.data.len() == self.count {', 'C03', 'silent'),
+ ('map-twice', 'src/ops/map.rs', '    self.observer.next((self.map)(value))', '    let v = (self.map)(value);\n    self.observer.next(v)', 'C03', 'silent'),
+ ('filter-map-drop-some', 'src/ops/filter_map.rs', '    if let Some(v) = (self.f)(value) {\n      self.down_observer.next(v)\n    }', '    if let None = (self.f)(value) {\n    }', 'C03', 'fire'),
+ ('collect-drops-item', 'src/ops/collect.rs', '    self.collection.extend(Some(value));', '    let _ = value;', 'C03', 'fire'),
  # --- C03 envelopes
  ('last-flush-on-error', 'src/ops/last.rs', '  fn error(self, err: Err) {\n    self.observer.error(err)', '  fn error(mut self, err: Err) {\n    if let Some(v) = self.last.take() {\n      self.observer.next(v)\n    }\n    self.observer.error(err)', 'C03', 'fire'),
  ('default-if-empty-no-complete', 'src/ops/default_if_empty.rs', '    self.observer.complete()\n  }', '    if !self.is_empty {\n      self.observer.complete()\n    }\n  }', 'C03', 'fire'),
